@@ -3,6 +3,8 @@
                          ops: a N | r0 N | f K | d K | f0 | r K N | g K | mf K (fail the K-th map from now)
   mt <policy> <threads>  concurrent scenarios, each on a fresh pool:
                          mix ITERS SEED XFREE% SIZE... | empty SIZE K | drain SIZE COUNT | large ITERS
+                         rlog ITERS SEED XFREE% SIZE...   = mix + per-thread call log and global order of call entries /
+                                                           critical sections (replayed on the extracted concurrent model)
 """
 CLASSES = [8, 16, 32, 64, 128, 256, 512, 1024, 2048, 4096, 8192, 16384, 32768]
 EDGE = sorted(set([0, 1, 7] + [c + d for c in CLASSES for d in (-1, 0, 1)] + [40000, 70000, 262144, 262145, 300000, 600000]))
@@ -25,6 +27,9 @@ def corpus():
         ("corpus-mt-small-slabs", ["mt small 6", "mix 5000 3 40 8 512 4096 4097", "empty 4096 30", "drain 2048 400"]),
         ("corpus-mt-large", ["mt aligned 5", "large 60", "mix 2000 5 30 32768 32769 100000 8"]),
         ("corpus-mt-two", ["mt unaligned 2", "mix 8000 1 50 16 16 32", "empty 16 2000", "drain 16 8000"]),
+        ("corpus-rlog-small", ["mt small 4", "rlog 2000 3 50 8 64 512 4096 4097", "rlog 1500 9 90 16 16 32"]),
+        ("corpus-rlog-large", ["mt aligned 6", "rlog 1500 11 60 8 16 24 64 100 1000 40000 300000"]),
+        ("corpus-rlog-unaligned-poison", ["mt unaligned 2", "rlog 3000 1 50 16 16 32 300000"]),
     ]
 
 
@@ -70,7 +75,14 @@ def gen_mt(rng, scale=1.0):
     lines = ["mt %s %d" % (pol, nt)]
     for _ in range(rng.choice([1, 2, 3])):
         k = rng.random()
-        if k < 0.45:
+        if k < 0.30:
+            m = rng.choice([1, 2, 3, 6])
+            sizes = [rng.choice(cls) - rng.choice([0, 0, 1, 3]) for _ in range(m)]
+            if rng.random() < 0.3:
+                sizes.append(big + 1 + rng.randrange(100000))
+            lines.append("rlog %d %d %d %s" % (int(rng.choice([800, 2000, 4000]) * scale), rng.randrange(1, 10**6),
+                                              rng.choice([0, 30, 60, 90]), " ".join(str(max(s, 0)) for s in sizes)))
+        elif k < 0.45:
             m = rng.choice([1, 2, 3, 6])
             sizes = [rng.choice(cls) - rng.choice([0, 0, 1, 3]) for _ in range(m)]
             if rng.random() < 0.2:
